@@ -1,28 +1,45 @@
 """Runs hostile inputs through worker processes and records which ones kill the node."""
-import json, os, re, subprocess, sys, concurrent.futures as cf
+import json, os, queue, re, subprocess, sys, threading, concurrent.futures as cf
 
 
-def run_chunk(vh, infile, ids, mode, timeout=600):
-    """Run ids in one worker; returns (results: {id: (check, deliver)}, crashes: [(id, stage, rc)])"""
+def run_chunk(vh, infile, ids, mode, stall=45, first=180):
+    """Run ids in one worker; returns (results: {id: (check, deliver)}, crashes: [(id, stage, rc)]).
+    The worker reports START/CHECKED/RESULT per input; a worker that dies, or that reports nothing for
+    `stall` seconds (a node that no longer answers: deadlock, endless loop), is blamed on the input in flight."""
     results, crashes = {}, []
     todo = list(ids)
     while todo:
-        p = subprocess.run([vh, "c18", "-run", infile, "-mode", mode, "-ids", ",".join(map(str, todo))],
-                           stdout=subprocess.PIPE, stderr=subprocess.DEVNULL, timeout=timeout)
-        out = p.stdout.decode("utf-8", "replace")
-        if "PROBE-BROKEN" in out:
-            raise RuntimeError("the probe transaction fails on a fresh application")
-        done, started, checked = [], None, None
-        for line in out.splitlines():
+        p = subprocess.Popen([vh, "c18", "-run", infile, "-mode", mode, "-ids", ",".join(map(str, todo))],
+                             stdout=subprocess.PIPE, stderr=subprocess.DEVNULL)
+        q = queue.Queue()
+
+        def pump(pipe=p.stdout, q=q):
+            for raw in iter(pipe.readline, b""):
+                q.put(raw.decode("utf-8", "replace").rstrip("\n"))
+            q.put(None)
+        threading.Thread(target=pump, daemon=True).start()
+        done, started, checked, hung, seen_any = [], None, None, False, False
+        while True:
+            try:
+                line = q.get(timeout=stall if seen_any else first)
+            except queue.Empty:
+                hung = True
+                p.kill()
+                break
+            if line is None:
+                break
+            seen_any = True
+            if "PROBE-BROKEN" in line:
+                p.kill()
+                raise RuntimeError("the probe transaction fails on a fresh application")
             m = re.match(r"RESULT (\d+) check=(\d+) deliver=(\d+) probe=(\w+)", line)
             if m:
                 i = int(m.group(1))
                 if m.group(4) == "true":
                     results[i] = (int(m.group(2)), int(m.group(3)))
-                    done.append(i)
                 else:
-                    crashes.append((i, "application-closed", p.returncode))
-                    done.append(i)
+                    crashes.append((i, "application-closed", -1))
+                done.append(i)
                 started = None
                 continue
             m = re.match(r"START (\d+)", line)
@@ -31,12 +48,18 @@ def run_chunk(vh, infile, ids, mode, timeout=600):
             m = re.match(r"CHECKED (\d+)", line)
             if m:
                 checked = True
+        rc = p.wait()
+        where = "DeliverTx/EndBlock/Commit or the following probe" if checked else "CheckTx"
         if started is not None:
-            crashes.append((started, "process-exit-in-" + ("DeliverTx/EndBlock" if checked else "CheckTx"), p.returncode))
+            crashes.append((started, ("no-answer-in-" if hung else "process-exit-in-") + where, rc))
             done.append(started)
+        elif hung:
+            # silent before the first input: the set-up chain itself hangs
+            crashes.append((todo[0], "no-answer-before-first-input", rc))
+            done.append(todo[0])
         if not done:
             # the worker died before reporting anything: blame the first input
-            crashes.append((todo[0], "process-exit-before-report", p.returncode))
+            crashes.append((todo[0], "process-exit-before-report", rc))
             done.append(todo[0])
         todo = [i for i in todo if i not in set(done)]
     return results, crashes
